@@ -183,6 +183,25 @@ func runDiff(t pbt.TB, b *backend, c Case) {
 		}
 	}
 	if hasOrderSensitive(c.Steps) {
+		// Planning changes the row ORDER (an index lookup lists by label, a scan by key),
+		// so a limit/skip/range/distinct may keep other rows. The row count is still
+		// determined when every step after it maps one row to one row (or just counts);
+		// a later filter or move sees different rows and nothing can be compared.
+		j := 0
+		for i, st := range c.Steps {
+			if model.OrderSensitive(st) {
+				j = i
+				break
+			}
+		}
+		for _, st := range c.Steps[j+1:] {
+			switch st.Op {
+			case "as", "fields", "render", "path", "count", "select":
+			default:
+				pbt.Class(t, "skip:order-sensitive step followed by a filter or move")
+				return
+			}
+		}
 		pbt.Class(t, "judged:row-count-only")
 		if len(prod.Rows) != len(lit.Rows) {
 			pbt.Discrepancy(t, c, "count:"+b.name+":"+opsSig(c.Steps), "%s on %s: planned pipeline returned %d rows, literal pipeline %d", model.TravString(c.Steps), b.name, len(prod.Rows), len(lit.Rows))
